@@ -13,4 +13,18 @@ ASSUMPTIONS = ['values are drawn from fixed points of the serializer round trip 
 
 def run(ctx):
     r = histcorr.run(ctx)
-    return histcorr.summarise(r, ('result',), 'C04', [histcorr.oracle_transparent])
+    res = histcorr.summarise(r, ('result',), 'C04', [histcorr.oracle_transparent])
+    # column caches (not in the VM model): the transparency oracle on histories with CacheColumns layers, variants that list the
+    # same ids in another order included
+    rc = histcorr.run(dict(ctx, pid=ctx['pid'] + 'col'), n_quick=100, n_thorough=800, extra=('--columns',))
+    v, n = histcorr.oracle_transparent(rc['cases'])
+    per = {}
+    for x in v:
+        per[x['signature']] = per.get(x['signature'], 0) + 1
+        if per[x['signature']] <= 2:
+            res['violations'].append(x)
+    res['violations'] += [{'signature': 'harness-error', 'what': e, 'case': None} for e in rc['errors']]
+    res['oracle_checks'] += n
+    res['evaluations'] += sum(len(c['ops']) for c in rc['cases'])
+    res['distribution']['column_histories'] = len(rc['cases'])
+    return res
